@@ -29,7 +29,14 @@ Facets == DOMAIN FacetValues
 Good == [attrs |-> {"ok"}, digest |-> {"ok"}, sig |-> {"ok"}, sid |-> {"ok"}, eesig |-> {"peer"}, eetime |-> {"ok"},
          eeca |-> {"no"}, eeaki |-> {"peer", "none"}, crlsig |-> {"peer"}, crltime |-> {"ok"}, crlaki |-> {"peer", "none"},
          revoked |-> {"none", "other"}, key |-> {"peer"}]
-Accept(m) == \A f \in Facets : m.f[f] \in Good[f]
+\* The statement is relative to the key the message is validated against (m.f.key): the EE certificate and the CRL must be
+\* signed by THAT key and their authority key identifiers, where present, must name it.  (A message whose certificate and CRL
+\* are all issued by the other key is a perfectly valid message of that other peer.)
+Accept(m) == LET k == m.f.key IN
+    /\ m.f.attrs = "ok" /\ m.f.digest = "ok" /\ m.f.sig = "ok" /\ m.f.sid = "ok"
+    /\ m.f.eesig = k /\ m.f.eetime = "ok" /\ m.f.eeca = "no" /\ m.f.eeaki \in {k, "none"}
+    /\ m.f.crlsig = k /\ m.f.crltime = "ok" /\ m.f.crlaki \in {k, "none"}
+    /\ m.f.revoked \in {"none", "other"}
 VARIABLES msg, devs
 vars == <<msg, devs>>
 Init == /\ \E s \in Sizes, ea \in Good.eeaki, ca \in Good.crlaki, rv \in Good.revoked :
@@ -43,6 +50,8 @@ Deviate == /\ devs < MaxDev
            /\ devs' = devs + 1
 Next == Deviate
 Spec == Init /\ [][Next]_vars
-SinglePoint == Accept(msg) <=> devs = 0
-Monotone == [][~Accept(msg) => ~Accept(msg')]_vars
+\* the conforming message is accepted and any single deviation is rejected
+SinglePoint == (devs = 0 => Accept(msg)) /\ (devs = 1 => ~Accept(msg))
+\* with more deviations only a complete change of identity is accepted again: everything issued by and validated under the other key
+OnlyWholeIdentity == (devs > 0 /\ Accept(msg)) => (msg.f.key = "other" /\ msg.f.eesig = "other" /\ msg.f.crlsig = "other")
 =============================================================================
